@@ -208,7 +208,8 @@ func c13Refcount(p *chk.Prog, r *chk.Report) {
 		ov := g.Find(f.IsAssignPat("RECV.ips[N][I]", "A", chk.H("N", name), chk.H("A", adv)))
 		okOv := len(ov) == 1
 		if okOv {
-			okOv = g.Dominated(ov[0], chk.GAnyOf(g.GPat(true, "A.ip.Equal(RECV.ips[N][I].ip)", chk.H("A", adv), chk.H("N", name)), g.GPat(true, "RECV.ips[N][I].ip.Equal(A.ip)", chk.H("A", adv), chk.H("N", name))))
+			stored := elementOf(f, func(e ast.Expr) bool { return f.MatchWith("RECV.ips[N]", e, chk.H("N", name)) != nil })
+			okOv = g.Dominated(ov[0], chk.GAnyOf(g.GPat(true, "A.ip.Equal(EL.ip)", chk.H("A", adv), chk.H("EL", stored)), g.GPat(true, "EL.ip.Equal(A.ip)", chk.H("A", adv), chk.H("EL", stored))))
 			// from the override, the function returns without append / increment
 			w := (&chk.Walk{G: g, From: ov[0], Hit: func(n ast.Node) bool { return app(n) || inc(n) }}).Run()
 			okOv = okOv && !w.Found
